@@ -89,7 +89,10 @@ func checkC11(p *core.Program, r *core.Report) {
 	r.Rule("R2", "printers are complete and ordered: each node's String() prints every Expression field exactly once, in declaration order, via its own String(); Visit walks the same fields; VisitParentheses builds an explicit Parentheses node whose String() emits both brackets")
 	r.Rule("R3", "literals round-trip by construction: TextLiteral.String is strconv.Quote of the full native value, VisitTextLiteral uses strconv.Unquote, NumberLiteral.String derives from the decimal's String")
 	r.Rule("R4", "refactor plumbing: refactor.Template copies BODY tokens unchanged and scans with unescapeBody=false; wrapExpression is the inverse of what the scanner strips; the original text is kept when the transformer reports no change; ContextRefRename's changed flag is monotone and the rename is guarded by EqualFold on a *ContextReference")
+	r.Rule("R5", "identifier text is printed as it was read: the text fields of a node (ContextReference.Name, DotLookup.Lookup, AnonFunction.Args) reach the printed string only through formatting (concatenation, Sprintf, Join), never through a call that can alter them — except a listed normalisation that every consumer of the field is insensitive to")
+	r.Rule("R6", "that insensitivity: the printer lower-cases context references, so every Scope.get a reference can be resolved by is XObject.Get (exact, then case-insensitive) or the function table's Lookup (lower-cases its argument); both are checked to compare lower-cased names")
 	r.Assumption("equality of evaluation results is not decided; ANTLR's precedence climbing follows the order of the grammar's alternatives")
+	r.Assumption("R5/R6: a root context with two keys differing only in case (which the engine never builds) would still be resolved differently after lower-casing")
 
 	toks, alts, err := parseExcellentGrammar(p.Repo)
 	if err != nil {
@@ -310,6 +313,7 @@ func checkC11(p *core.Program, r *core.Report) {
 
 	// ---------------------------------------------------------- R3
 	c11QuotePair(p, r, "R3")
+	c11Identifiers(p, r, nodes)
 	if nl := p.Method("excellent", "NumberLiteral", "String"); nl != nil {
 		ok := false
 		var follow func(fn *ssa.Function, depth int)
@@ -571,4 +575,183 @@ func c11PrintedTemplates(p *core.Program, strFn *ssa.Function) []c11Printed {
 		out = append(out, pr)
 	}
 	return out
+}
+
+// c11NormalisedFields: text fields a printer may pass through a normalising call, with the reason it is harmless.
+var c11NormalisedFields = map[string]string{
+	"ContextReference.Name/strings.ToLower": "a context reference is resolved through Scope.get, which R6 shows to be case-insensitive (XObject.Get falls back to a lower-cased comparison; functions.Lookup lower-cases)",
+}
+
+// formatting calls that carry their string arguments into the result unchanged
+var c11Formatting = map[string]bool{"fmt.Sprintf": true, "strings.Join": true, "fmt.Sprint": true}
+
+func c11Identifiers(p *core.Program, r *core.Report, nodes []*types.Named) {
+	nText := 0
+	for _, n := range nodes {
+		name := n.Obj().Name()
+		st := n.Underlying().(*types.Struct)
+		strFn := p.Method("excellent", name, "String")
+		if strFn == nil {
+			continue
+		}
+		for i := 0; i < st.NumFields(); i++ {
+			f := st.Field(i)
+			isText := false
+			switch t := f.Type().Underlying().(type) {
+			case *types.Basic:
+				isText = t.Kind() == types.String
+			case *types.Slice:
+				if b, ok := t.Elem().Underlying().(*types.Basic); ok {
+					isText = b.Kind() == types.String
+				}
+			}
+			if !isText {
+				continue
+			}
+			nText++
+			// forward flow of every load of the field inside String()
+			var altering []string
+			var pos ssa.Instruction
+			seen := map[ssa.Value]bool{}
+			var flow func(v ssa.Value)
+			flow = func(v ssa.Value) {
+				if seen[v] || v.Referrers() == nil {
+					return
+				}
+				seen[v] = true
+				for _, u := range *v.Referrers() {
+					switch x := u.(type) {
+					case *ssa.Call:
+						if _, isB := x.Call.Value.(*ssa.Builtin); isB {
+							continue // len, append: the text itself is not altered
+						}
+						o := core.CalleeObj(&x.Call)
+						if o != nil && c11Formatting[core.ObjName(o)] {
+							continue
+						}
+						nm := "a dynamic call"
+						if o != nil {
+							nm = core.ObjName(o)
+						}
+						altering = append(altering, nm)
+						if pos == nil {
+							pos = x
+						}
+					case *ssa.Store:
+						if x.Val == v {
+							// stored into a local (vararg array element, variable): follow the loads of that location
+							if root := storeRoot(x.Addr); root != nil {
+								flow(root)
+							}
+						}
+					case ssa.Value:
+						flow(x)
+					}
+				}
+			}
+			core.EachInstr(strFn, true, func(_ *ssa.Function, in ssa.Instruction) {
+				if fa, ok := in.(*ssa.FieldAddr); ok && core.FieldAddrVar(fa) == f {
+					flow(fa)
+				}
+			})
+			key := name + "." + f.Name() + "/printed-verbatim"
+			var unlisted []string
+			for _, a := range uniq(altering) {
+				if reason, ok := c11NormalisedFields[name+"."+f.Name()+"/"+a]; ok {
+					r.OK("R5", name+"."+f.Name()+"/"+a, p.Pos(strFn.Pos()), "listed: "+reason)
+				} else {
+					unlisted = append(unlisted, a)
+				}
+			}
+			at := strFn.Pos()
+			if pos != nil && len(unlisted) > 0 {
+				at = pos.Pos()
+			}
+			r.Check(len(unlisted) == 0, "R5", key, p.Pos(at), "reaches the result only through formatting",
+				fmt.Sprintf("%s.String passes %s through %s before printing it: the printed expression names something else than the parsed one (lookups prefer an exact-case match; anonymous function arguments are bound by their declared names)", name, f.Name(), strings.Join(unlisted, ", ")))
+		}
+	}
+	r.Require("node_text_fields", nText, 3)
+
+	// R6: who can resolve a context reference
+	getField := p.FieldOf("excellent", "Scope", "get")
+	if getField == nil {
+		r.Errorf("excellent.Scope.get not found")
+		return
+	}
+	nw := 0
+	for _, w := range p.FieldWrites(getField) {
+		if p.IsTestFile(w.Instr.Pos()) {
+			continue
+		}
+		nw++
+		what, ok := "", false
+		switch v := w.Val.(type) {
+		case *ssa.MakeClosure:
+			fn := v.Fn.(*ssa.Function)
+			if fn.Synthetic != "" && strings.Contains(fn.Name(), "Get$bound") {
+				what, ok = "bound method "+fn.Name(), strings.HasPrefix(core.FuncName(fn), "(*excellent/types.XObject).Get")
+			} else {
+				// a function literal: every result it returns comes from functions.Lookup
+				what = "function literal " + core.FuncName(fn)
+				ok = len(fn.FreeVars) == 0 && len(callsNamed(fn, "excellent/functions.Lookup")) > 0
+			}
+		case *ssa.Function:
+			what = "function literal " + core.FuncName(v)
+			ok = len(callsNamed(v, "excellent/functions.Lookup")) > 0
+		default:
+			if w.Val != nil {
+				what = w.Val.String()
+			}
+		}
+		r.Check(ok, "R6", core.FuncName(w.Fn)+"->Scope.get", p.Pos(w.Instr.Pos()), what,
+			"Scope.get is set to "+what+", which is not known to resolve names case-insensitively: the printer lower-cases context references, so a printed expression would no longer find what the parsed one found")
+	}
+	r.Require("scope_get_writers", nw, 2)
+	lowerCompare := func(fn *ssa.Function) bool {
+		ok := false
+		core.EachInstr(fn, false, func(_ *ssa.Function, in ssa.Instruction) {
+			switch x := in.(type) {
+			case *ssa.BinOp:
+				if x.Op == token.EQL && core.DerivesFromCallDeep(x.X, 2, "strings.ToLower") && core.DerivesFromCallDeep(x.Y, 2, "strings.ToLower") {
+					ok = true
+				}
+			case *ssa.Lookup:
+				if core.DerivesFromCallDeep(x.Index, 2, "strings.ToLower") {
+					ok = true
+				}
+			case *ssa.Call:
+				if o := core.CalleeObj(&x.Call); o != nil && core.ObjName(o) == "strings.EqualFold" {
+					ok = true
+				}
+			}
+		})
+		return ok
+	}
+	if g := p.Method("excellent/types", "XObject", "Get"); g != nil {
+		r.Check(lowerCompare(g), "R6", "XObject.Get/case-insensitive", p.Pos(g.Pos()), "compares lower-cased names", "XObject.Get no longer falls back to a case-insensitive match: a lower-cased printed reference does not resolve")
+	} else {
+		r.Errorf("XObject.Get not found")
+	}
+	if g := p.Func("excellent/functions", "Lookup"); g != nil {
+		r.Check(lowerCompare(g), "R6", "functions.Lookup/case-insensitive", p.Pos(g.Pos()), "indexes the table with the lower-cased name", "functions.Lookup no longer lower-cases the name: a lower-cased printed function reference may not resolve")
+	} else {
+		r.Errorf("functions.Lookup not found")
+	}
+}
+
+// storeRoot: the local allocation an address lies in (directly or as an element of a local array).
+func storeRoot(addr ssa.Value) ssa.Value {
+	for {
+		switch x := addr.(type) {
+		case *ssa.Alloc:
+			return x
+		case *ssa.IndexAddr:
+			addr = x.X
+		case *ssa.FieldAddr:
+			addr = x.X
+		default:
+			return nil
+		}
+	}
 }
